@@ -237,7 +237,7 @@ func runNaiveCase(r *ev.Run, idx int) {
 		}
 		r.Situation("naive-fidelity")
 		nontrivial = true
-		if round == 1 && prof.Hardlinking && prof.CacheFiles >= 1000 && prof.Scenario == "plain" {
+		if round >= 1 && prof.Hardlinking && prof.CacheFiles >= 1000 && (round == 2 || prof.Scenario == "plain") {
 			// With a large cache the second action needs no file blob.
 			if fileGets() == getsBefore && root.expanded > 1 {
 				r.Situation("naive-hardlink-cache-hit")
